@@ -799,6 +799,133 @@ fn kind_of(req: &Elem) -> String {
 
 const RPC_ERROR: &str = "<rpc-error><error-type>protocol</error-type><error-tag>operation-failed</error-tag><error-severity>error</error-severity><error-message>injected failure</error-message></rpc-error>";
 
+/// Damage a positive reply (C14).  `msg` ends with the delimiter, which is kept.
+pub fn mutate_reply(msg: &str, how: &str) -> Vec<u8> {
+    let body = &msg[..msg.len() - EOM.len()];
+    let rep = |from: &str, to: &str| -> String { body.replacen(from, to, 1) };
+    let first_elem = |name: &str| -> Option<(usize, usize)> {
+        let a = body.find(&format!("<{name}>"))?;
+        let close = format!("</{name}>");
+        let b = body[a..].find(&close)? + a + close.len();
+        Some((a, b))
+    };
+    let out: Vec<u8> = match how {
+        "trunc-half" => body.as_bytes()[..body.len() / 2].to_vec(),
+        "trunc-tag" => {
+            let k = body.rfind("</").unwrap_or(body.len() / 2);
+            body.as_bytes()[..k + 1].to_vec()
+        }
+        "trunc-attr" => {
+            let k = body.find("=\"").map(|k| k + 3).unwrap_or(body.len() / 3);
+            body.as_bytes()[..k].to_vec()
+        }
+        "dup-statement" => match first_elem("policy-statement") {
+            Some((a, b)) => format!("{}{}{}", &body[..b], &body[a..b], &body[b..]).into_bytes(),
+            None => rep("<ok/>", "<ok/><ok/>").into_bytes(),
+        },
+        "dup-name" => match first_elem("name") {
+            Some((a, b)) => format!("{}{}{}", &body[..b], &body[a..b], &body[b..]).into_bytes(),
+            None => rep("<ok/>", "<ok/><ok/><ok/>").into_bytes(),
+        },
+        "dup-root" => format!("{body}{body}").into_bytes(),
+        "huge-int" => {
+            let big = "9".repeat(40);
+            let r = rep("<choice-value>/", &format!("<choice-value>/{big}"));
+            if r == body { rep("message-id=\"", &format!("message-id=\"{big}")).into_bytes() } else { r.into_bytes() }
+        }
+        "range-reversed" => {
+            let r = match first_elem("choice-value") {
+                Some((a, b)) => format!("{}<choice-value>/32-/8</choice-value>{}", &body[..a], &body[b..]),
+                None => rep("<ok/>", "<ok>/32-/8</ok>"),
+            };
+            r.into_bytes()
+        }
+        "range-junk" => match first_elem("choice-value") {
+            Some((a, b)) => format!("{}<choice-value>-</choice-value>{}", &body[..a], &body[b..]).into_bytes(),
+            None => rep("<ok/>", "<ok>-</ok>").into_bytes(),
+        },
+        "bad-prefix" => match first_elem("address") {
+            Some((a, b)) => format!("{}<address>999.1.1.1/99</address>{}", &body[..a], &body[b..]).into_bytes(),
+            None => rep("<ok/>", "<nok/>").into_bytes(),
+        },
+        "family-swapped" => {
+            let r = rep("<family>inet</family>", "<family>inet6</family>");
+            if r == body { rep("<ok/>", "<ok><ok/></ok>").into_bytes() } else { r.into_bytes() }
+        }
+        "family-unknown" => {
+            let r = rep("<family>inet</family>", "<family>iso</family>");
+            if r == body { rep("<ok/>", "<okay/>").into_bytes() } else { r.into_bytes() }
+        }
+        "wrong-ns" => {
+            let r = rep(XNM, "http://example.net/not-xnm");
+            if r == body { rep(BASE_NS, "urn:example:not-netconf").into_bytes() } else { r.into_bytes() }
+        }
+        "no-ns" => rep(&format!(" xmlns=\"{BASE_NS}\""), "").into_bytes(),
+        "bad-utf8" => {
+            let mut v = body.as_bytes().to_vec();
+            let k = v.len() / 2;
+            v.insert(k, 0xff);
+            v.insert(k, 0xc3);
+            v
+        }
+        "nul-byte" => {
+            let mut v = body.as_bytes().to_vec();
+            let k = v.len() / 2;
+            v.insert(k, 0);
+            v
+        }
+        "deep" => {
+            let n = 20000;
+            let inner = format!("{}{}", "<a>".repeat(n), "</a>".repeat(n));
+            let r = rep("</rpc-reply>", &format!("{inner}</rpc-reply>"));
+            r.into_bytes()
+        }
+        "deep-in-data" => {
+            let n = 5000;
+            let inner = format!("{}{}", "<term>".repeat(n), "</term>".repeat(n));
+            let r = rep("</policy-statement>", &format!("{inner}</policy-statement>"));
+            if r == body { rep("<ok/>", &format!("<ok>{inner}</ok>")).into_bytes() } else { r.into_bytes() }
+        }
+        "huge-comment" => rep(">", &format!("><!--{}-->", "x".repeat(2_000_000))).into_bytes(),
+        "text-for-element" => match first_elem("policy-options") {
+            Some((a, b)) => format!("{}some text{}", &body[..a], &body[b..]).into_bytes(),
+            None => rep("<ok/>", "ok").into_bytes(),
+        },
+        "unknown-element" => {
+            let r = rep("<term>", "<frobnicate><x/></frobnicate><term>");
+            if r == body { rep("<ok/>", "<frobnicate/><ok/>").into_bytes() } else { r.into_bytes() }
+        }
+        "mismatched-end" => {
+            let r = rep("</policy-options>", "</snoitpo-ycilop>");
+            if r == body { rep("</rpc-reply>", "</ylper-cpr>").into_bytes() } else { r.into_bytes() }
+        }
+        "entity" => {
+            let r = rep("<name>", "<name>&bogus;");
+            if r == body { rep("<ok/>", "<ok>&bogus;</ok>").into_bytes() } else { r.into_bytes() }
+        }
+        "cdata" => {
+            let r = rep("<name>", "<name><![CDATA[<x>]]>");
+            if r == body { rep("<ok/>", "<![CDATA[<ok/>]]>").into_bytes() } else { r.into_bytes() }
+        }
+        "doctype" => format!("<!DOCTYPE x [<!ENTITY a \"aaaaaaaaaa\"><!ENTITY b \"&a;&a;&a;&a;&a;&a;&a;&a;\">]>{}", rep("<name>", "<name>&b;")).into_bytes(),
+        "empty" => Vec::new(),
+        "only-space" => b"   \n  ".to_vec(),
+        "not-xml" => b"Permission denied (publickey).\r\n".to_vec(),
+        "lt-only" => b"<".to_vec(),
+        "two-replies" => {
+            // the same reply twice, each with its own delimiter
+            let mut v = body.as_bytes().to_vec();
+            v.extend_from_slice(EOM.as_bytes());
+            v.extend_from_slice(body.as_bytes());
+            v
+        }
+        _ => body.as_bytes().to_vec(),
+    };
+    let mut out = out;
+    out.extend_from_slice(EOM.as_bytes());
+    out
+}
+
 /// Serve NETCONF sessions (sequentially accepted, each on its own task) until dropped.
 pub async fn start_junos(
     running: Value,
@@ -806,6 +933,7 @@ pub async fn start_junos(
     faults: Vec<Fault>,
     acceptor: tokio_rustls::TlsAcceptor,
     case: String,
+    style: Option<crate::xmlgen::Style>,
 ) -> FakeJunos {
     let listener = TcpListener::bind(("127.0.0.1", 0)).await.unwrap();
     let addr = listener.local_addr().unwrap();
@@ -818,7 +946,7 @@ pub async fn start_junos(
             let (st, faults, acceptor, case) = (st.clone(), faults.clone(), acceptor.clone(), case.clone());
             drop(tokio::spawn(async move {
                 let Ok(stream) = acceptor.accept(tcp).await else { return };
-                serve_session(stream, st, faults, case).await;
+                serve_session(stream, st, faults, case, style).await;
             }));
         }
     }));
@@ -830,6 +958,7 @@ async fn serve_session(
     st: Arc<Mutex<JunosState>>,
     faults: Vec<Fault>,
     case: String,
+    style: Option<crate::xmlgen::Style>,
 ) {
     let sess = {
         let mut g = st.lock().unwrap();
@@ -907,6 +1036,9 @@ async fn serve_session(
             .iter()
             .find(|f| f.target == kind && (f.index == 0 || kind != "load" || f.index == nload))
             .cloned();
+        // a damaged reply (C14): the router did what was asked, only its answer is garbage
+        let mutated = fault.as_ref().map_or(false, |f| f.kind.starts_with("mut:"));
+        ev["mutated"] = json!(mutated);
         // what the request means
         let mut reply_body = String::new();
         match kind.as_str() {
@@ -917,7 +1049,7 @@ async fn serve_session(
                     .or_else(|| req.children[0].child("ephemeral").map(|_| "<default>".to_string()))
                     .unwrap_or_else(|| "<private>".into());
                 ev["instance"] = json!(inst);
-                if fault.is_none() {
+                if fault.is_none() || mutated {
                     staged = Some(st.lock().unwrap().eph.clone());
                 }
             }
@@ -958,7 +1090,7 @@ async fn serve_session(
             }
             "commit" => {
                 ev["db_open"] = json!(staged.is_some());
-                if fault.is_none() {
+                if fault.is_none() || mutated {
                     if let Some(s) = staged.clone() {
                         st.lock().unwrap().eph = s;
                     }
@@ -981,11 +1113,33 @@ async fn serve_session(
         ev["fault"] = json!(fk);
         log(&st, ev);
         let ok_reply = format!("<rpc-reply message-id=\"{id}\" xmlns=\"{BASE_NS}\" xmlns:junos=\"http://xml.juniper.net/junos/23.1R0/junos\">{reply_body}</rpc-reply>{EOM}");
+        // the same positive reply in another, information-equivalent serialisation (C13)
+        let ok_reply = match &style {
+            Some(sty) => {
+                let body = &ok_reply[..ok_reply.len() - EOM.len()];
+                match crate::xmlgen::restyle(body, sty, &["family", "choice-ident", "address", "choice-value"]) {
+                    Ok(r) => format!("{r}{EOM}"),
+                    Err(e) => {
+                        log(&st, json!({"ev": "tool_error", "what": format!("restyle: {e}")}));
+                        ok_reply
+                    }
+                }
+            }
+            None => ok_reply,
+        };
         let err_reply = if kind == "load" {
             format!("<rpc-reply message-id=\"{id}\" xmlns=\"{BASE_NS}\"><load-configuration-results>{RPC_ERROR}<load-error-count>1</load-error-count></load-configuration-results></rpc-reply>{EOM}")
         } else {
             format!("<rpc-reply message-id=\"{id}\" xmlns=\"{BASE_NS}\">{RPC_ERROR}</rpc-reply>{EOM}")
         };
+        if let Some(how) = fk.strip_prefix("mut:") {
+            let raw = mutate_reply(&ok_reply, how);
+            if stream.write_all(&raw).await.is_err() {
+                return;
+            }
+            let _ = stream.flush().await;
+            continue;
+        }
         let to_send: Vec<String> = match fk.as_str() {
             "none" => vec![ok_reply],
             "rpc-error" => vec![err_reply],
